@@ -310,7 +310,19 @@ theorem nullNamed_false (f : PFilePatch) (h : nullNamed f = false) :
   simp only [nullNamed, Bool.or_eq_false_iff, beq_eq_false_iff_ne, ne_eq] at h
   exact h
 
-theorem header_steps (total : Nat) (f : PFilePatch) (ok : FPOK' f) (hnn : nullNamed f = false) (rest : Bytes)
+/-- the part of the parsed-file-patch invariant the header and hunk round trip needs (no claim about `kind`) -/
+structure FPW (f : PFilePatch) : Prop where
+  hunksOK : ∀ h ∈ f.hunks, HunkOK h
+  renOK : f.rename = true → f.old.isSome = true ∧ f.new.isSome = true
+  nameOK : f.old.isSome = true ∨ f.new.isSome = true
+  oldPerm : ∀ x, f.oldPerm = some x → x < 8 ^ 6
+  newPerm : ∀ x, f.newPerm = some x → x < 8 ^ 6
+  hash : HashOK f.oldHash f.newHash
+
+theorem FPOK.toFPW {f : PFilePatch} (ok : FPOK f) : FPW f :=
+  ⟨fun h hm => (ok.hunksOK h hm).1, ok.renOK, ok.nameOK, ok.oldPerm, ok.newPerm, ok.hash⟩
+
+theorem header_steps (total : Nat) (f : PFilePatch) (ok : FPW f) (hnn : nullNamed f = false) (rest : Bytes)
     (ext : Bool) (O N : Filename) :
     ∃ k, k ≤ 7 ∧ Steps total k (hdrTailR f rest) ext (mk O N false none none none none) rest
       (ext || f.rename || f.oldPerm.isSome || f.newPerm.isSome || f.oldHash.isSome)
@@ -356,7 +368,7 @@ theorem header_steps (total : Nat) (f : PFilePatch) (ok : FPOK' f) (hnn : nullNa
 theorem realName_nameVal (n : Option Bytes) : realName (some (nameVal n)) = n := by
   cases n <;> rfl
 
-theorem build_final (f : PFilePatch) (ok : FPOK f) (hs : List PHunk) :
+theorem build_final (f : PFilePatch) (ok : FPW f) (hs : List PHunk) :
     buildFilePatch (mk (nameVal f.old) (nameVal f.new) f.rename f.oldPerm f.newPerm f.oldHash f.newHash) hs =
       some { kind := recognizeKind hs, old := f.old, new := f.new, rename := f.rename, oldPerm := f.oldPerm,
              newPerm := f.newPerm, oldHash := f.oldHash, newHash := f.newHash, hunks := hs } := by
@@ -423,32 +435,20 @@ theorem sameHunks_refl_of (hs : List PHunk) : sameHunks hs hs := by
   | nil => trivial
   | cons h hs ih => exact ⟨⟨rfl, rfl, rfl, rfl, rfl⟩, ih⟩
 
-/-- **L4**: reading back a written file patch, from just after its `diff --git` line -/
-theorem filePatch_tail (total : Nat) (f : PFilePatch) (ok : FPOK' f) (hnn : nullNamed f = false)
+/-- **L4 (core)**: reading back a written file patch, from just after its `diff --git` line; `Q` is whatever
+one wants to know about the resulting file patch -/
+theorem filePatch_tail_core (total : Nat) (f : PFilePatch) (ok : FPW f) (hnn : nullNamed f = false)
     (hk : noopHunkless f = false) (next : Bytes) (hnext : NextOK next) (ext : Bool) (O N : Filename)
-    (F : Nat) (hF : 9 ≤ F) (wH : Bool) (hd : Nat) :
+    (F : Nat) (hF : 9 ≤ F) (wH : Bool) (hd : Nat) (Q : PFilePatch → Prop)
+    (hfin : ∀ hs', sameHunks f.hunks hs' → (∀ x ∈ hs', CtxZ x) →
+      Q { kind := recognizeKind hs', old := f.old, new := f.new, rename := f.rename, oldPerm := f.oldPerm, newPerm := f.newPerm, oldHash := f.oldHash, newHash := f.newHash, hunks := hs' }) :
     ∃ fp', filePatchLoop total F (hdrTailR f ((f.hunks.map writeHunk).flatten ++ next)) wH hd true ext
-        (mk O N false none none none none) = .ok (next, hd, fp') ∧ sameFP f (stripFP 0 fp') := by
+        (mk O N false none none none none) = .ok (next, hd, fp') ∧ Q fp' := by
   obtain ⟨k, hk7, st⟩ := header_steps total f ok hnn ((f.hunks.map writeHunk).flatten ++ next) ext O N
   obtain ⟨F', rfl⟩ : ∃ F', F = (F' + 1) + k := ⟨F - 1 - k, by omega⟩
   rw [st (F' + 1) wH hd]
   generalize hext : (ext || f.rename || f.oldPerm.isSome || f.newPerm.isSome || f.oldHash.isSome) = ext'
-  have hb := fun hs => build_final f ok.toFPOK hs
-  have hfin : ∀ hs', sameHunks f.hunks hs' → (∀ x ∈ hs', CtxZ x) →
-      sameFP f (stripFP 0 { kind := recognizeKind hs', old := f.old, new := f.new, rename := f.rename, oldPerm := f.oldPerm, newPerm := f.newPerm, oldHash := f.oldHash, newHash := f.newHash, hunks := hs' }) := by
-    intro hs' sh cz
-    refine ⟨?_, ?_, ?_, rfl, rfl, rfl, rfl, rfl, sh⟩
-    · simp only [stripFP]
-      rw [ok.kindOK]
-      exact recognizeKind_same _ _ sh (fun x hx => (ok.hunksOK x hx).2) cz
-    · simp only [stripFP]
-      cases ho : f.old with
-      | none => rfl
-      | some n => simp [ok.oldFix n ho]
-    · simp only [stripFP]
-      cases ho : f.new with
-      | none => rfl
-      | some n => simp [ok.newFix n ho]
+  have hb := fun hs => build_final f ok hs
   cases hh : f.hunks with
   | nil =>
     -- no hunks: the patch ends at `next`
@@ -476,7 +476,7 @@ theorem filePatch_tail (total : Nat) (f : PFilePatch) (ok : FPOK' f) (hnn : null
       exact ⟨_, rfl, hfin [] (by rw [hh]; trivial) (by simp)⟩
   | cons h0 hs0 =>
     rw [← hh]
-    have hokh : ∀ h ∈ f.hunks, HunkOK h := fun h hm => (ok.hunksOK h hm).1
+    have hokh : ∀ h ∈ f.hunks, HunkOK h := ok.hunksOK
     have hc : lineCond (mk (nameVal f.old) (nameVal f.new) f.rename f.oldPerm f.newPerm f.oldHash f.newHash)
         ((f.hunks.map writeHunk).flatten ++ next) = false := by
       have : hdrNoMatch ((f.hunks.map writeHunk).flatten ++ next) = false := by
@@ -497,5 +497,27 @@ theorem filePatch_tail (total : Nat) (f : PFilePatch) (ok : FPOK' f) (hnn : null
     simp only [List.nil_append, hb hs']
     have cz : ∀ x ∈ hs', CtxZ x := fun x hx => (hunksLoop_inv _ _ _ _ _ e1 (by simp) x (by simpa using hx)).2
     exact ⟨_, rfl, hfin hs' e2 cz⟩
+
+/-- **L4**: for a parsed file patch the result is the same file patch -/
+theorem filePatch_tail (total : Nat) (f : PFilePatch) (ok : FPOK' f) (hnn : nullNamed f = false)
+    (hk : noopHunkless f = false) (next : Bytes) (hnext : NextOK next) (ext : Bool) (O N : Filename)
+    (F : Nat) (hF : 9 ≤ F) (wH : Bool) (hd : Nat) :
+    ∃ fp', filePatchLoop total F (hdrTailR f ((f.hunks.map writeHunk).flatten ++ next)) wH hd true ext
+        (mk O N false none none none none) = .ok (next, hd, fp') ∧ sameFP f (stripFP 0 fp') := by
+  refine filePatch_tail_core total f ok.toFPOK.toFPW hnn hk next hnext ext O N F hF wH hd
+    (fun fp' => sameFP f (stripFP 0 fp')) ?_
+  intro hs' sh cz
+  refine ⟨?_, ?_, ?_, rfl, rfl, rfl, rfl, rfl, sh⟩
+  · simp only [stripFP]
+    rw [ok.kindOK]
+    exact recognizeKind_same _ _ sh (fun x hx => (ok.hunksOK x hx).2) cz
+  · simp only [stripFP]
+    cases ho : f.old with
+    | none => rfl
+    | some n => simp [ok.oldFix n ho]
+  · simp only [stripFP]
+    cases ho : f.new with
+    | none => rfl
+    | some n => simp [ok.newFix n ho]
 
 end RQ.Write
